@@ -24,6 +24,7 @@ Definition spec_code (c : case) : N :=
         else if negb (Nat.eqb (cv_ncerts v) 0) && requests_cert p ecdhe && negb (cv_verify_msg v && cv_verify_ok v) then 2%N  (* certificate without proof of possession *)
         else if pn && negb (cv_verify_msg v && cv_verify_ok v) then 3%N       (* peer certificates reported without the proof *)
         else if cn && negb (cv_chain_ok v) then 4%N                           (* verified chains reported without verification *)
+        else if ecdhe && verifies_cert p && Nat.leb 2 (cv_ncerts v) && negb (cv_chain_enc_ok v) then 7%N   (* ECDHE: the encryption certificate, whose key enters the key agreement, was not verified *)
         else if negb (cv_fin_ok v) then 5%N
         else 0%N
       else 0%N
